@@ -360,6 +360,8 @@ type Ctx struct {
 	inprg  map[string]bool
 	fver   map[string][]string
 	noInl  map[*ssa.Function]bool
+	parent *Ctx            // the context this one was inlined from (nil for a root)
+	via    ssa.Instruction // the instruction of parent.fn at which this context is entered
 }
 
 var inlineDepth = 3
@@ -372,6 +374,9 @@ func (p *Prog) NewCtx(fn *ssa.Function) *Ctx {
 func (c *Ctx) child(callee *ssa.Function, call ssa.Instruction, args []*Term) *Ctx {
 	ch := &Ctx{p: c.p, fn: callee, fi: infoOf(callee), scope: c.scope, bind: map[ssa.Value]*Term{}, depth: c.depth + 1, maxD: c.maxD,
 		site: c.instrID(call), memo: map[ssa.Value]*Term{}, fmemo: map[ssa.Value]*Formula{}, pc: map[int]*Formula{}, memDef: map[string][]memDefn{}, inprg: map[string]bool{}, noInl: c.noInl}
+	if call != nil && call.Block() != nil && call.Parent() == c.fn {
+		ch.parent, ch.via = c, call
+	}
 	for i, prm := range callee.Params {
 		if i < len(args) {
 			ch.bind[prm] = args[i]
@@ -928,6 +933,10 @@ func (c *Ctx) fieldVersion(f *types.Var, u ssa.Instruction) string {
 	if ver == "" {
 		ver = "unreached"
 	}
+	// the memory an inlined callee starts from is the caller's memory at the call
+	if ver == "entry" && c.parent != nil && c.via != nil {
+		return c.parent.fieldVersion(f, c.via)
+	}
 	return c.site + "v:" + f.Name() + ":" + ver
 }
 
@@ -1266,7 +1275,7 @@ func (c *Ctx) callTerm(call *ssa.Call) *Term {
 			name = shortFuncName(f)
 		}
 		t := &Term{Kind: "call", Name: name, Obj: f.Object(), Fn: f, Args: args, Typ: call.Type()}
-		if c.p.inRepo(f) && f.Blocks != nil && isBool(call.Type()) {
+		if c.p.inRepo(f) && f.Blocks != nil && (isBool(call.Type()) || (isInteger(call.Type()) && indexSearchSummary(c.p, f) != nil)) {
 			t.C = c
 		}
 		if c.p.inRepo(f) && f.Blocks != nil {
